@@ -93,7 +93,9 @@ reg('C06', 'model_checking',
 
 reg('C10', 'model_checking',
     'The real Solver.solve run to completion for the full product of time '
-    'step x final time x print frequency x damping length x max_steps x '
+    'step x final time (commensurate, not, and 0.05 % of a step off a whole '
+    'number of steps) x print frequency x damping length x max_steps '
+    '(unlimited, 0, 1, 2) x '
     'every sorted subset (size<=3) of a per-(dt,tf) candidate set of '
     'requested output times (inside the first/last step, on a step time, '
     '+-1 ulp, accumulated vs exact multiples, clustered, at and beyond tf), '
@@ -162,9 +164,9 @@ reg('C19', 'exploration',
 
 
 reg('C08', 'exploration',
-    'Every kernel class x accepted dimension x 13 smoothing lengths over 12 '
-    'decades x a q lattice containing 0, every piece boundary and the '
-    'support edge +-1 ulp and +-2^-40, 100 (quick) / 400 (thorough) points '
+    'Every kernel class x accepted dimension x 13 (thorough 29) smoothing '
+    'lengths over 12 (18) decades x a q lattice containing 0, every piece boundary and the '
+    'support edge +-1 ulp and +-2^-40, 100 (quick) / 1000 (thorough) points '
     'per piece and points beyond the support x up to 14 directions: '
     'compact support (exact zero), sign and monotonicity, gradient = '
     'dwdq/h x/r and zero at r=0, dwdq and gradient_h against Richardson '
@@ -172,7 +174,7 @@ reg('C08', 'exploration',
     'by per-piece Gauss-Legendre quadrature (Gaussian family against the '
     'analytic truncated value of the documented formula), scaling law, '
     'and bit/ulp agreement of the compiled twins requested through '
-    'get_compiled_kernel in two orders.',
+    'get_compiled_kernel in two orders, down to h = 1e-6 (thorough 1e-9).',
     'Trusted: finite-difference and quadrature references; nothing is '
     'claimed between lattice points (the lattice enters every branch on '
     'both sides of every boundary).',
@@ -186,8 +188,9 @@ reg('C20', 'exploration',
     'explicitly or through the closure of precomputed pair symbols x '
     'removal from the destination / from one of two sources, in flat '
     'lists, groups and sub-groups; destination that is its own source; '
-    'misspelt destination and source names; every shipped stepper x every '
-    'argument x first / later array; one generated user equation per '
+    'misspelt destination and source names; every shipped stepper (built '
+    'with a shipped integrator of its stage count) and ten generated '
+    'steppers of 1-5 stages x every argument x first / later array; one generated user equation per '
     'precomputed symbol. The real AccelerationEval / SPHCompiler front end '
     'is driven up to (a patched) compile(): reaching it is the violation. '
     'Nothing is compiled or executed, which is the point of the property.',
@@ -202,8 +205,8 @@ reg('C20', 'exploration',
 reg('C11', 'exploration',
     'Complete product {npz,hdf5} x compress x detailed_output x only_real '
     'over an enumerated family of particle-array lists (0/1/3 particles, '
-    'five tag patterns, four output-list shapes, with and without '
-    'constants; every C type x stride {1,3} x default {0,3}; two arrays '
+    'five tag patterns, four output-list shapes, constants of length 0, 1, '
+    '4 and 200 or none; numeric, boolean and string solver data; every C type x stride {1,3} x default {0,3}; two arrays '
     'with different property sets and constants; empty arrays; no arrays), '
     'plus version-1 npz fixtures written in the documented v1 layout; the '
     'real dump()/load() pair is run on every case and name, per-property '
@@ -238,21 +241,22 @@ reg('C07', 'model_checking',
 
 
 reg('C16', 'model_checking',
-    'Breadth-first search over move/update histories (depth 2 quick, 3 '
+    'Breadth-first search over move/update histories (depth 2 quick, 4 '
     'thorough) on real InletBase/OutletBase objects with their compiled '
     'IOEvaluate evaluators: 14 displacement patterns per round (whole '
     'arrays, single particles; forward, backward, more than a zone length) '
     'followed by inlet.update and outlet.update with the stage active or '
     'not; 4 initial populations x 7 flow directions in 1-3 D (including '
     'normals with three different components) x props_to_copy none/subset '
-    'x with/without ghost inlet. After every transition all three arrays '
+    'x with/without ghost inlet / with a ghost-tagged bystander particle '
+    'in every array. After every transition all three arrays '
     'are compared, as multisets of whole particle records, with a '
     'bookkeeping reference model, and fluid count = initial + entered - '
     'left is asserted. In addition each of the five shipped families is '
     'driven through its SimpleInletOutlet manager: a 2-D channel with one '
     'inlet and two outlets, the update objects (the family\'s own Inlet / '
     'Outlet classes) taken from get_inlet_outlet(), every history of <=2 '
-    '(thorough 3) displacements out of 6 compared with a bookkeeping model.',
+    '(thorough 4) displacements out of 6 compared with a bookkeeping model.',
     'Trusted: the bookkeeping models; states with a particle exactly on an '
     'interface plane are not generated (either outcome allowed). The '
     'equations and steppers the managers add are not part of this check.',
@@ -264,10 +268,10 @@ reg('C17', 'model_checking',
     'Every neighbour algorithm (the seven documented ones must support '
     're-ordering, the others may raise NotImplementedError) x cache on/off '
     'on all placements of <=4 particles on small 1-3 D lattices x one/two '
-    'arrays x ghost tails {0,1,2} x two h patterns, plus larger blocks with '
+    'arrays x non-Local tails {0,1,2} (Remote and Ghost tags) x two h patterns, plus larger blocks with '
     'arrays of different sizes; arrays carry every C type and stride-2/3 '
     'properties (created before or after the scalar ones). Histories of '
-    'reorder / update / move / grow / shrink on one long-lived NNPS object: the index list '
+    'reorder / update / move / grow / shrink / add properties on one long-lived NNPS object: the index list '
     'must be a permutation, the multiset of whole particle records must be '
     'unchanged, Local particles must stay ahead of ghosts, and after the '
     'next update the object must answer like a freshly built one.',
@@ -316,10 +320,11 @@ reg('C02', 'translation_validation',
     '(typed and strided properties, constants, scalar attributes, t, dt, '
     'XIJ, literals) x {+,-,*,/} in each of five hooks; feature templates '
     '(declared ints and matrices, loops, branches, helper functions, '
-    'attributes changed after construction, typed writes, reduce, libm, '
+    'attributes changed after construction, private (underscore) attributes, typed writes, reduce, libm, '
     'SPH_KERNEL in loop_all) and all ordered 2-3 equation groups of '
     'non-commuting equations - is generated, compiled by the real tool '
-    'chain and executed; the same Python methods are executed by '
+    'chain (on decoy arrays that are then replaced through '
+    'update_particle_arrays) and executed at t=0.3, dt=0.07; the same Python methods are executed by '
     'vlib/ref/sph_interp.py (independent precomputed-symbol table, Python '
     'kernel classes, bounds-checked array views) on the same arrays and '
     'neighbour lists. Every property and constant is compared: bit '
@@ -331,7 +336,8 @@ reg('C02', 'translation_validation',
     'classes that cannot be instantiated generically or whose methods '
     'cannot run in the bounds-checked pure-Python reference are listed '
     'under not_covered in the evidence. OpenMP off; GPU back-ends not '
-    'covered. int/int division and unsigned arithmetic are outside the '
+    'covered. Quick tier: generated C++ compiled with -O0, thorough with '
+    'compyle\'s -O3. int/int division and unsigned arithmetic are outside the '
     'documented subset and not generated.',
     'bounded program enumeration, real code generator + compiler vs '
     'reference interpreter',
@@ -351,14 +357,16 @@ reg('C03', 'model_checking',
     'after 1, 2, 4, never, condition true/false/time dependent, pre, post, '
     'update_nnps - of a three-equation group followed by a '
     'neighbour-dependent probe group; two-group programs over all '
-    'destination/source wirings of three arrays; every deviated group placed between plain groups that use the same arrays and destinations; sub-groups with their own '
+    'destination/source wirings of three arrays; every deviated group placed between plain groups that use the same arrays and destinations; groups and sub-groups sharing an explicit name; equation classes that inherit every hook and converged(); sub-groups with their own '
     'flags inside eight kinds of parents (plain, pre+post, condition, '
     'update_nnps, iterated, and combinations of those).',
     'Trusted: the reference interpreter (the model of the documented '
     'order); programs are packed 24 per generated module with a boundary '
     'group that snapshots and resets the arrays. A generated module that '
     'does not compile is bisected to the offending program and reported. '
-    'OpenMP off (C05 covers thread counts).',
+    'OpenMP off (C05 covers thread counts). Quick tier: generated C++ '
+    'compiled with -O0, thorough with -O3. An exception raised by the '
+    'generated code is a violation.',
     'bounded program enumeration, real code generator + compiler vs '
     'reference interpreter, with callback-trace comparison',
     'E5-program-enumeration-vs-reference-interpreter')
@@ -377,7 +385,7 @@ reg('C04', 'model_checking',
     'initialize/no initialize x 4 acceleration placement patterns incl. '
     'update_nnps=False and second equation set x update_domain) x '
     'stepper wirings (different classes, same class with different '
-    'attributes, py_stage hooks incl. one that adds particles, arrays '
+    'attributes, py_stage hooks incl. one that adds particles, stages that exist only as a hook, inherited stages, arrays '
     'without stepper; plus a mirror instead of a periodic domain with '
     'fixed_h declared, and an integrator class re-defined under the same '
     'module and class name in one process) is run for three '
@@ -394,9 +402,11 @@ reg('C04', 'model_checking',
 
 
 reg('C05', 'exploration',
-    'Three tiny Applications (free surface with a 1.8x smoothing-length '
+    'Five tiny Applications (free surface with a 1.8x smoothing-length '
     'bump, wall bounded with two arrays, doubly periodic with two fluid '
-    'arrays) are run through Application.run(argv) for six steps under '
+    'arrays, two blocks that start out of range and collide, a block '
+    'stepped by GTVFIntegrator on a reduced option set; every array '
+    'carries a strided identity property) are run through Application.run(argv) for six steps under '
     'every option vector at distance <=1 from the default, the complete '
     'nnps x cache and nnps x sort-gids planes, threads {1,2,3,4,8,16} x '
     'sort/cache, every nnps x {2,16} threads, x re-ordering frequency, '
@@ -422,7 +432,7 @@ reg('C09', 'exploration',
     'mutually interacting arrays x enumerated small placements (incl. '
     'pairs only one of whose smoothing lengths reaches, coincident pairs '
     'excluded) x per-particle value patterns (pressures of both signs, '
-    'mixed masses and h) x 5 neighbour algorithms, evaluated by the real '
+    'mixed masses and h) x the 12 neighbour algorithm classes taking turns (16 variants incl. multi-level and tiny hash tables), evaluated by the real '
     'compiled evaluator: sum m a = 0 and sum x cross m a = 0 to rounding '
     'relative to sum |m a|.',
     'Trusted: which equations are documented as pair symmetric (table in '
@@ -443,7 +453,9 @@ reg('C12', 'exploration',
     'int or uses it as an index, and with the stride the sources declare it '
     'with (static check), and for configurations within '
     'distance 1 of the defaults the code is generated and compiled. Tier '
-    'B: around the defaults the problem is compiled and run for two steps; '
+    'B: the default and every distance-1 deviation (incl. required numeric '
+    'arguments nu/pb/alpha set to zero / non-zero) is compiled and run for '
+    'two steps; '
     'all values must stay finite.',
     'Trusted: generic particle block and initial values for scheme '
     'specific properties (checks/c12_schemes.py). Scheme cases the generic '
@@ -458,7 +470,7 @@ reg('C14', 'model_checking',
     'Breadth-first search over histories of Interpolator interface calls '
     '(interpolate of several properties, set_interpolation_points, '
     'update, update_particle_arrays with fresh arrays, move sources, grow the smoothing lengths in place, overwrite the interpolated property in place, targets given as Fortran-ordered 2-D arrays; depth '
-    '2 quick / 3 thorough) for 5 methods x 9 kernel/dim pairs x one/two '
+    '2 quick / 4 thorough) for 5 methods x 9 kernel/dim pairs x one/two '
     'source arrays x non-periodic/periodic domain; after every call the '
     'values (and for order1 the gradient) at every target are compared '
     'with a direct NumPy evaluation of the defining sums over all source '
